@@ -151,6 +151,18 @@ CHECKS = {
         note=("Trusted: vlib/simk.py waitpid/kill/virtual-time model (step-bounded, no wall clock). Real scheduler latency is not measured; a poll interrupted by EINTR is treated as carrying no information."),
         design="DESIGN.md section 3 C15",
     ),
+    "C16": dict(
+        level="exploration",
+        technique="property-based testing (Hypothesis): (a) op-list histories with a differential oracle (oneshot vs plain call on a fresh object at the first-read state), (b) generated thread schedules executed by a sys.settrace scheduler at source-line granularity",
+        text=("(a) Sequential histories of enter / nested enter / exit / exception / getter calls / process mutations / as_dict forms / deny / zombify / vanish on one object: every value must "
+              "equal what a plain call on a fresh object returns for the process state its source had when first read in the block; stat/status/smaps are opened at most once per clean block; "
+              "caches must be gone after the block; as_dict keys, ad_value placement, NoSuchProcess propagation and validation-before-access are checked. (b) Schedules: a oneshot block or "
+              "as_dict() in one thread, plain calls from 1-2 other threads and an optional kernel mutation, pre-empted at generated source lines of psutil/*.py: no spurious exception, every "
+              "value valid for some version between min(block start, call start) and call end. Search, not proof; bounded pre-emptions."),
+        note=("Trusted: vlib/simk.py, vlib/detsched.py. Pre-emption inside C calls is out of reach; create_time()/exe() memoised for life and not compared; inside a block, calls mixing a cached "
+              "source with a different error state (zombie/denied/gone) are not compared. The 'first read' moment is observed on psutil's per-object cache."),
+        design="DESIGN.md section 3 C16",
+    ),
     "C19": dict(
         level="exploration",
         technique="property-based testing (Hypothesis): generated /sys and /proc hardware trees -> statement arithmetic on the model tree",
